@@ -1,4 +1,6 @@
 import SameVerif.Lemmas.AppFacts
+import SameVerif.Thm.C06
+import SameVerif.Model.Spawner
 /-
   C12 — child processes get the exact message audio: one child per StartOfMessage, each fed the
   input samples from the point its header was returned up to the point the next message is
@@ -108,5 +110,79 @@ example :
 example :
     (appRun ⟨true, true⟩ (fun _ => true) ⟨100, [(10, .som [90]), (40, .som [91])], []⟩).children
       = [(.som [90], 10, 40), (.som [91], 40, 100)] := by decide
+
+end SameVerif.C12
+
+/- C12 (environment): the SAMEDEC_* variables restate the header. -/
+namespace SameVerif.C12
+open SameVerif SameVerif.Gen SameVerif.C06
+
+/-- **The child's environment restates the header.**  For every accepted header (fields `f` as
+    matched by the parser) and every clock, `spawn` cannot panic and sets: MSG = the stored text,
+    ORG / EVT = the originator and event fields, ORIGINATOR / EVENT / SIGNIFICANCE / SIG_NUM = their
+    decodings, LOCATIONS = the location fields joined by spaces, IS_NATIONAL per `national_flag`,
+    and ISSUETIME / PURGETIME either both empty (issue time not computable) or the epoch seconds
+    of the inferred issue instant and of that instant plus the validity period. -/
+theorem env_restates_header (s : List Byte) (h : Header) (hn : Header.new s = .ok h)
+    (f : Fields) (hp : parseFields s = some f) (rateStr : Str) (y : Int) (d : Nat) :
+    ∃ e, childEnv h rateStr y d = .ok e
+      ∧ e.rate = rateStr
+      ∧ e.msg = natStr h.text
+      ∧ e.org = natStr f.org
+      ∧ e.originator = (originatorOf (natStr f.org) (natStr f.call)).display
+      ∧ e.evt = natStr f.evt
+      ∧ e.event = eventDisplay (eventCode (natStr f.evt))
+      ∧ e.significance = (eventCode (natStr f.evt)).2.code
+      ∧ e.sigNum = decStr (eventCode (natStr f.evt)).2.num
+      ∧ e.locations = joinSpace (f.locs.map natStr)
+      ∧ e.isNational = boolEnv (decide (f.locs = [[48, 48, 48, 48, 48, 48]]) && (eventCode (natStr f.evt)).1.info.national)
+      ∧ (let doy := digitsVal (f.issue.take 3)
+         let hh := digitsVal ((f.issue.drop 3).take 2)
+         let mm := digitsVal (f.issue.drop 5)
+         let dh := digitsVal (f.purge.take 2)
+         let dm := digitsVal (f.purge.drop 2)
+         match calcIssue doy hh mm y d with
+         | some t => e.issueTime = epochStr t.epochSecs ∧ e.purgeTime = epochStr (t.epochSecs + durationSecs dh dm)
+         | none => e.issueTime = [] ∧ e.purgeTime = []) := by
+  obtain ⟨a1, a2, a3, _, a5, a6, a7⟩ := accessors s h hn f hp
+  have b1 := accessor_originator s h hn f hp
+  have b2 := accessor_event s h hn f hp
+  have b3 := accessor_national s h hn f hp
+  simp only [childEnv, a1, a2, a5, a6, a7, b1, b2, b3]
+  refine ⟨_, rfl, rfl, rfl, rfl, rfl, rfl, rfl, rfl, rfl, rfl, rfl, ?_⟩
+  simp only
+  cases calcIssue (digitsVal (f.issue.take 3)) (digitsVal ((f.issue.drop 3).take 2)) (digitsVal (f.issue.drop 5)) y d <;> simp
+
+/-- `spawn` never panics on an accepted header -/
+theorem env_total (s : List Byte) (h : Header) (hn : Header.new s = .ok h) (rateStr : Str) (y : Int) (d : Nat) :
+    ∃ e, childEnv h rateStr y d = .ok e := by
+  obtain ⟨f, _, hp, _⟩ := text_canonical s h hn
+  obtain ⟨e, he, _⟩ := env_restates_header s h hn f hp rateStr y d
+  exact ⟨e, he⟩
+
+/-- when both times are set they differ by exactly the validity period (as integers, before
+    rendering) -/
+theorem purge_minus_issue (t : IssueTime) (dh dm : Nat) :
+    (t.epochSecs + durationSecs dh dm) - t.epochSecs = 3600 * (dh : Int) + 60 * (dm : Int) := by
+  simp only [durationSecs]; omega
+
+/-- rendering is injective on naturals, so equal `SAMEDEC_*TIME` strings mean equal instants -/
+theorem epochStr_nonempty (i : Int) : epochStr i ≠ [] := by
+  cases i with
+  | ofNat n =>
+    simp only [epochStr, decStr, ne_eq, List.map_eq_nil_iff]
+    intro h
+    have := Nat.toDigits_ne_nil (b := 10) (n := n)
+    exact this h
+  | negSucc n => simp [epochStr]
+
+-- non-vacuity: the example header of Thm/C06 (`ZCZC-WXR-RWT-012345-567890+0030-1231200-KLOX/NWS-`),
+-- received on day 100 of 2021 at 22050 Hz
+example : ∃ e, childEnv exHeader [50, 50, 48, 53, 48] 2021 100 = .ok e
+    ∧ e.org = [87, 88, 82] ∧ e.evt = [82, 87, 84] ∧ e.sigNum = [48] ∧ e.isNational = []
+    ∧ e.locations = [48, 49, 50, 51, 52, 53, 32, 53, 54, 55, 56, 57, 48]
+    ∧ e.issueTime = [49, 54, 50, 48, 48, 52, 51, 50, 48, 48]      -- 1620043200 = 2021-05-03T12:00Z
+    ∧ e.purgeTime = [49, 54, 50, 48, 48, 52, 53, 48, 48, 48] := by -- + 30 min
+  refine ⟨_, rfl, ?_, ?_, ?_, ?_, ?_, ?_, ?_⟩ <;> decide +kernel
 
 end SameVerif.C12
